@@ -14,6 +14,24 @@ CLAIMED = {
    text="Generated-input search with rapid over the full-mix schema grammar and option sets; every emitted file of every accepted case must parse, be gofmt-stable and type-check against exactly its declared imports (go/types with gc export data). Failures are shrunk by rapid and saved as plain-JSON replays. Sampling, not proof: right level because the property quantifies over an unbounded program space and has an exact executable validity predicate.",
    note="Domain rules R7/R8; extension objects consistent; open known findings exclude their input region by construction (see known_findings.json).",
    design="4 C01"),
+ "C02": dict(
+   technique="property-based testing: constructed valid documents run against compiled generated code; reflective tag-bound dump and marshal round trip compared with the model",
+   engine="E-run",
+   text="Generated programs from the structural grammar are compiled in batches; every constructively valid document must be accepted, every declared value must be found (exact ints, bit-equal floats, byte-equal strings, formats by value) in the struct field whose json tag is that exact property name, json.Marshal must reproduce every non-empty declared value, and the additional-properties map must hold exactly the undeclared keys.",
+   note="R2-R5. Open finding: integer additional properties beyond 2^53 lose precision (excluded).",
+   design="4 C02"),
+ "C03": dict(
+   technique="property-based testing: type-substitution mutants and explicit nulls at every typed position, executed against compiled generated code",
+   engine="E-run",
+   text="At every typed position of a valid document (properties, array elements, typed additional-property values, through $ref and allOf/anyOf branches) one value of each other JSON type is substituted and must be rejected; null at every nullable position must be accepted and decode to nil/zero.",
+   note="R1, R3, R4, R7. Open findings: null for a nullable object with constrained required fields is rejected; a fraction in an integer-typed additional property is truncated (both excluded).",
+   design="4 C03"),
+ "C04": dict(
+   technique="property-based testing: required-key deletion mutants at every object position, executed against compiled generated code",
+   engine="E-run",
+   text="From each valid document every present required key without default is deleted in turn at root, nested, array-element, referenced and allOf/anyOf-branch objects; each deletion must be rejected while all valid documents (optional keys absent, nullable required keys null) are accepted.",
+   note="R3, R4.",
+   design="4 C04"),
  "C05": dict(
    technique="exhaustive order-type grid + rapid floats on NormalizeBounds (semantic interval oracle); property-based boundary sweeps executed against compiled generated code",
    engine="E-direct + E-run",
